@@ -330,7 +330,7 @@ def r4_prefix(ctx):
         asg = [a for a in walk_local(f.node) if isinstance(a, ast.Assign) and isinstance(a.targets[0], ast.Name) and a.targets[0].id == pos]
         ctx.check(bool(asg) and asg[0].value is cut_calls[0] and all(isinstance(a.value, ast.Call) and dotted(a.value.func) == 'min' for a in asg[1:]), 'C10.R4', f'{func_label(f)}|cut-from-native', loc(f, yst), f'`{pos}` is the result of next_cut({buf}, final)', f'`{pos}` is not (only) the value returned by next_cut')
         # R5: only a truthy cut reaches the yield
-        guards = [i for i in walk_local(f.node) if isinstance(i, ast.If) and ((isinstance(i.test, ast.UnaryOp) and isinstance(i.test.op, ast.Not) and isinstance(i.test.operand, ast.Name) and i.test.operand.id == pos) or (isinstance(i.test, ast.Compare) and isinstance(i.test.left, ast.Name) and i.test.left.id == pos))]
+        guards = [i for i in walk_local(f.node) if isinstance(i, ast.If) and ((isinstance(i.test, ast.UnaryOp) and isinstance(i.test.op, ast.Not) and isinstance(i.test.operand, ast.Name) and i.test.operand.id == pos) or (isinstance(i.test, ast.Compare) and len(i.test.ops) == 1 and isinstance(i.test.left, ast.Name) and i.test.left.id == pos and isinstance(i.test.comparators[0], ast.Constant) and ((isinstance(i.test.ops[0], (ast.Eq, ast.LtE)) and i.test.comparators[0].value == 0) or (isinstance(i.test.ops[0], ast.Lt) and i.test.comparators[0].value == 1))))]
         g = []
         for i in guards:
             exits = any(isinstance(s_, (ast.Break, ast.Return, ast.Continue)) for s_ in i.body)
